@@ -214,7 +214,7 @@ type guardSpec struct {
 // violation. Accesses through a freshly constructed, unpublished object are exempt.
 func (c *Ctx) GuardedBy(spec guardSpec) {
 	if spec.maxDepth == 0 {
-		spec.maxDepth = 4
+		spec.maxDepth = 2
 	}
 	isRW := strings.Contains(spec.lock.Type().String(), "RWMutex")
 	type need struct {
@@ -332,6 +332,10 @@ func (c *Ctx) GuardedBy(spec guardSpec) {
 					done[ck+"/exempt"] = true
 					c.Ok(ck+"/exempt", "call exempt from the lock rule: "+why, u.Where(c.P))
 				}
+				continue
+			}
+			if u.InGo {
+				c.Bad(ck, "caller holds lock", u.Where(c.P), fmt.Sprintf("%s is started as a goroutine here and (transitively) touches state guarded by %s without locking: %s", funcName(n.fn), spec.lock.Name(), n.why))
 				continue
 			}
 			held, known := c.heldAtUse(u, spec.lock, getFlow)
